@@ -260,4 +260,29 @@ theorem product_head : ∀ (doms : List (Tok × List Bool)), (∀ d ∈ doms, d.
           simp only [List.head?_cons, Option.some.injEq] at ih
           simp [List.flatMap_cons, hp, hb, ih]
 
+/-! ## the preferred assignment, read off the wording -/
+
+/-- the last value of the domain the code builds is the wording's value, as long as no IUSE flag is forced both ways
+(`add_variable` asserts it) -/
+theorem domainOf_last_eq_wording (inp : Inputs) (v : Tok)
+    (hdis : v ∈ inp.iuse → v ∈ inp.forceT → v ∉ inp.forceF) :
+    (domainOf inp v).getLast?.getD false = Spec.preferredOn inp v := by
+  unfold domainOf Spec.preferredOn
+  by_cases h1 : v ∈ inp.iuse
+  · by_cases h2 : v ∈ inp.forceF
+    · have h3 : v ∉ inp.forceT := fun h3 => hdis h1 h3 h2
+      simp [h1, h2, h3]
+    · by_cases h3 : v ∈ inp.forceT
+      · simp [h1, h2, h3]
+      · by_cases h4 : v ∈ inp.preferT
+        · simp [h1, h2, h3, h4]
+        · simp [h1, h2, h3, h4]
+  · simp [h1]
+
+theorem preferred_eq_wording (inp : Inputs) (vars : List Tok)
+    (hdis : ∀ f, f ∈ inp.iuse → f ∈ inp.forceT → f ∉ inp.forceF) :
+    Spec.preferred inp vars = Spec.preferredByWording inp vars := by
+  unfold Spec.preferred Spec.preferredByWording
+  exact List.map_congr_left fun v _ => by rw [domainOf_last_eq_wording inp v (hdis v)]
+
 end Pkgcore.C10
